@@ -93,7 +93,6 @@ theorem readRTP_keeps_key {W WC} (ci : Cipher W WC) (r : RecvFmt) (f : Frame W) 
   simp only at hc
   subst hc
   obtain ⟨ssrc, seq, body⟩ := f
-  have dk : ∀ c' p, c.decryptRTP ci ssrc seq = fun w => c.decryptRTP ci ssrc seq w := fun _ _ => rfl
   have aux : ∀ (x : RecvFmt) (w : W), x.inCtx = some c →
       ∃ c', (match c.decryptRTP ci ssrc seq w with
         | none => (x, ReadRes.decodeError)
